@@ -94,6 +94,22 @@ PROPS = {
         assumptions=["the concatenation clause for structured values relies on the C01 round-trip lemmas (claimed there)"],
         trusted=STD_TRUST,
     ),
+    "C03": dict(
+        units=["parse"],
+        level="proof",
+        min_obligations=60,
+        replay_family="c03",
+        explanation="Every function of parse/read.rs (decoders, slice/str scanners) and parse/mod.rs (lexer, number scanner, next_value/expect_value/"
+                    "parse_list/parse_vector/parse_byte_list/end_seq) is extracted from /repo and verified for: no arithmetic overflow, no out-of-bounds index or "
+                    "slice, every unwrap/expect on Some/Ok, every unreachable!() dead, callee preconditions, termination of every loop (decreases on the "
+                    "unread input), the parser invariant 1 <= remaining_depth <= 128 restored on EVERY exit, and a recursion measure (remaining_depth, rank) "
+                    "that must strictly decrease at every recursive call - so native recursion depth is bounded by the depth budget, for all bytes, all "
+                    "option sets and any source satisfying the Read contract.",
+        assumptions=["IoRead (stream source) and the datum API are covered by their own units / not yet under contract: see not_covered",
+                     "allocation failure and stack size are not modelled (Vec::push assumed to succeed)"],
+        not_covered=["IoRead::*, LineColIterator", "next_datum / parse_list_meta / parse_vector_meta", "f64_from_parts body (float arithmetic)"],
+        trusted=STD_TRUST,
+    ),
 }
 
 
